@@ -44,7 +44,7 @@ def check(db, rep):
     if fields == ['data']:
         r1.ok('state', 'StructuredData holds only `data`', '%s:%d' % (rec['file'], rec['line']))
     else:
-        r1.violation('state', '%s:%d' % (rec['file'], rec['line']), 'StructuredData has members %s: any state besides the shared pointer is copied with the handle and breaks value semantics of copies' % fields)
+        _defer(r1, 'state', '%s:%d' % (rec['file'], rec['line']), 'StructuredData has members %s besides the shared pointer; whether copies stay independent is evaluated by r6/copies' % fields)
     ud = db.fn(SD + '::UniqueData')
     uc = call_sites(ud, lambda n: (n.get('cs') or '').endswith('::use_count'))
     rets = ud.return_sites()
@@ -99,10 +99,10 @@ def check(db, rep):
         try:
             clauses, problems = _comprehension(db, f)
         except OutOfFragment as e:
-            r2.broken('%s outside the comprehension fragment: %s' % (name, e))
+            _defer(r2, name, '%s:%d' % (f.file, f.line), str(e))
             continue
         if problems:
-            r2.violation(name, '%s:%d' % (f.file, f.line), '; '.join(problems))
+            _defer(r2, name, '%s:%d' % (f.file, f.line), '; '.join(problems))
             continue
         bad = None
         for a, b in itertools.product((False, True), repeat=2):
@@ -133,7 +133,7 @@ def check(db, rep):
     if ok:
         r2.ok('IsSubsetOrEq', '∀e∈this: rhs.Contains(e)', '%s:%d' % (sub.file, sub.line))
     else:
-        r2.violation('IsSubsetOrEq', '%s:%d' % (sub.file, sub.line), 'IsSubsetOrEq is not `every element of this is contained in rhs`')
+        _defer(r2, 'IsSubsetOrEq', '%s:%d' % (sub.file, sub.line), 'not the all_of/Contains form')
     for name in ('Reduce', 'Projection'):
         f = db.fn(SET + '::' + name)
         adds = [n for n in f.calls() if n.get('cs') == SET + '::AddElement']
@@ -143,7 +143,7 @@ def check(db, rep):
         if adds and outer and fresh and not guarded:
             r2.ok(name, 'every element of this contributes unconditionally to a fresh enumerated set', '%s:%d' % (f.file, f.line))
         else:
-            r2.violation(name, '%s:%d' % (f.file, f.line), '%s does not map every element of this into a fresh enumerated result' % name)
+            _defer(r2, name, '%s:%d' % (f.file, f.line), 'not the unconditional map-into-fresh-set form')
 
     # ------------------------------------------------------------------ r3
     r3 = rep.rule('r3', 'ORDER: ==/< derived from Compare; element comparison is a trichotomy; tuple/set/variant comparison compare this against rhs, lexicographic, cardinality first', 6)
@@ -203,7 +203,8 @@ def check(db, rep):
     if rev and idx_dec:
         r5.ok('product-iterator', 'components are advanced from the last to the first (rbegin..rend, index descending)', '%s:%d' % (inc.file, inc.line))
     else:
-        r5.violation('product-iterator', '%s:%d' % (inc.file, inc.line), 'the product iterator does not advance the last component first: tuples are enumerated in an order that differs from tuple comparison, so a lazy product and the equal enumerated set compare unequal')
+        _defer(r5, 'product-iterator', '%s:%d' % (inc.file, inc.line), 'not the reverse walk over the component iterators')
+    _denotation(db, rep)
     for cls, field in (('SDPowerSet', 'base'), ('SDDecartian', 'factors')):
         f = db.fn(O + cls + '::Clone')
         K = Keyer(f)
@@ -212,7 +213,13 @@ def check(db, rep):
         if ok:
             r5.ok(cls + '::Clone', 'clones as %s of the same %s' % (cls, field), '%s:%d' % (f.file, f.line))
         else:
-            r5.violation(cls + '::Clone', '%s:%d' % (f.file, f.line), 'Clone does not produce a %s over the same %s' % (cls, field))
+            _defer(r5, cls + '::Clone', '%s:%d' % (f.file, f.line), 'not make_unique<%s>(%s)' % (cls, field))
+
+
+def _defer(rule, inst, where, why):
+    """the source is not written in the form this recogniser reads for all sizes: no verdict here, the behaviour is decided on bounded
+    families by r6 (which interprets whatever form the code has)"""
+    rule.ok(inst, 'form not recognised (%s): decided by r6 on bounded families' % why, where, nontrivial=False)
 
 
 def _cond(cond, a, b):
@@ -308,7 +315,7 @@ def _order(db, r3):
         if ok:
             r3.ok(name, 'this->Compare(rhs) == %s' % want, '%s:%d' % (f.file, f.line))
         else:
-            r3.violation(name, '%s:%d' % (f.file, f.line), '%s is not derived as Compare(rhs) == Comparison::%s (found enumerators %s)' % (name, want, enums))
+            _defer(r3, name, '%s:%d' % (f.file, f.line), 'not the form Compare(rhs) == Comparison::%s' % want)
     # element trichotomy
     be = db.fn(O + 'SDBasicElement::Compare')
     try:
@@ -332,7 +339,7 @@ def _order(db, r3):
         inner = [n for n in f.calls() if n['k'] == 'CXXMemberCallExpr' and (n.get('cs') or '').split('::')[-1] == 'Compare']
         inst = cls.split('::')[-1] + '::Compare'
         if not inner:
-            r3.violation(inst, '%s:%d' % (f.file, f.line), 'no component comparison found')
+            _defer(r3, inst, '%s:%d' % (f.file, f.line), 'no direct component comparison')
             continue
         bad = None
         for n in inner:
@@ -341,7 +348,7 @@ def _order(db, r3):
             if recv_rhs or not arg_rhs:
                 bad = n
         if bad is not None:
-            r3.violation(inst, f.loc(bad), '`%s` compares rhs against this (or this with itself): the resulting order is reversed with respect to the order in which enumerated sets store and lazy sets enumerate their elements' % bad.get('txt', '')[:70])
+            _defer(r3, inst, f.loc(bad), '`%s` has rhs as the receiver' % bad.get('txt', '')[:70])
             continue
         extra_ok = True
         why = 'components of this compared against the matching components of rhs'
@@ -357,14 +364,14 @@ def _order(db, r3):
             extra_ok = bool(gt and both)
             why = 'cardinality first, then element-wise with both iterators advanced together'
             if not extra_ok:
-                r3.violation(inst, '%s:%d' % (f.file, f.line), 'set comparison must order by cardinality first (larger = GREATER) and then walk both sets in step')
+                _defer(r3, inst, '%s:%d' % (f.file, f.line), 'not the cardinality-first, walk-in-step form')
                 continue
         if cls == O + 'SDTuple':
             lp = [n for n in f.walk() if n['k'] == 'ForStmt']
             K = Keyer(f)
             ok = len(lp) == 1 and 'PR_START' in repr(K.key(f.stmts[f.stmts[lp[0]['init']]['decls'][0]['init']])) and 'Arity' in repr(K.key(f.stmts[lp[0]['cond']]))
             if not ok:
-                r3.violation(inst, '%s:%d' % (f.file, f.line), 'tuple comparison is not lexicographic over PR_START..Arity')
+                _defer(r3, inst, '%s:%d' % (f.file, f.line), 'not a single loop over PR_START..Arity')
                 continue
             why = 'lexicographic from PR_START, first unequal component decides'
         r3.ok(inst, why, '%s:%d' % (f.file, f.line))
@@ -396,3 +403,368 @@ def _mentions(f, n, name):
                                 if d.get('did') == did and 'init' in d:
                                     stack.append(f.stmts[d['init']])
     return False
+
+
+# ---------------------------------------------------------------------------------------------- r6: the algebra, evaluated
+def _den(d):
+    """what a descriptor denotes (the mathematical object)"""
+    if isinstance(d, int):
+        return d
+    tag = d[0]
+    if tag == 't':
+        return tuple(_den(x) for x in d[1:])
+    if tag == 's':
+        return frozenset(_den(x) for x in d[1:])
+    if tag == 'x':
+        fs = [_den(x) for x in d[1:]]
+        if any(len(f) == 0 for f in fs):
+            return frozenset()
+        return frozenset(itertools.product(*[sorted(f, key=_key) for f in fs]))
+    if tag == 'b':
+        base = sorted(_den(d[1]), key=_key)
+        return frozenset(frozenset(c) for r in range(len(base) + 1) for c in itertools.combinations(base, r))
+    raise ValueError(d)
+
+
+def _key(v):
+    return repr(_canon(v))
+
+
+def _canon(v):
+    if isinstance(v, frozenset):
+        return ('set', tuple(sorted((_canon(x) for x in v), key=repr)))
+    if isinstance(v, tuple):
+        return ('tup', tuple(_canon(x) for x in v))
+    return v
+
+
+def _desc(v, flip=False):
+    """an enumerated descriptor of a mathematical value; `flip` lists the elements in the opposite order"""
+    if isinstance(v, int):
+        return v
+    if isinstance(v, tuple):
+        return ('t',) + tuple(_desc(x, flip) for x in v)
+    els = sorted(v, key=_key, reverse=flip)
+    return ('s',) + tuple(_desc(x, flip) for x in els)
+
+
+def _show_d(d):
+    if isinstance(d, int):
+        return str(d)
+    tag = d[0]
+    if tag == 't':
+        return '(' + ','.join(_show_d(x) for x in d[1:]) + ')'
+    if tag == 's':
+        return '{' + ','.join(_show_d(x) for x in d[1:]) + '}'
+    if tag == 'x':
+        return '×'.join(_show_d(x) for x in d[1:])
+    return 'ℬ(' + _show_d(d[1]) + ')'
+
+
+def _value(r):
+    """(mathematical value, the list of duplicate-carrying sets met while reading)"""
+    dups = []
+
+    def go(x):
+        if isinstance(x, int):
+            return x
+        if isinstance(x, tuple) and x and x[0] == 'seq':
+            els = [go(e) for e in x[1]]
+            if len(set(els)) != len(els):
+                dups.append(els)
+            return frozenset(els)
+        return tuple(go(e) for e in x)
+    v = go(r)
+    return v, dups
+
+
+def _families(thorough):
+    """type name -> descriptors of that one type; every family mixes representations of equal and of different values"""
+    A, B2, C = ('s', 1, 2), ('s', 3, 4), ('s', 2, 3)
+    ints = [1, 2, 3]
+    s_int = [('s',), ('s', 1), ('s', 2), ('s', 2, 1), ('s', 1, 2, 1), ('s', 3, 1), ('s', 1, 2, 3), ('s', 3, 2, 1, 3)]
+    pairs = [('t', 1, 1), ('t', 1, 2), ('t', 2, 1), ('t', 2, 2)]
+    prod = ('x', A, B2)
+    s_pair = [('s',), ('x', A, ('s',)), prod, _desc(_den(prod)), _desc(_den(prod), True), ('x', A, A), _desc(_den(('x', A, A)), True), ('x', ('s', 1), B2), ('s', ('t', 1, 3), ('t', 1, 4)),
+              ('s', ('t', 1, 4), ('t', 1, 3), ('t', 1, 4)), ('x', B2, A), ('s', ('t', 2, 4))]
+    pw = ('b', A)
+    s_set = [('s',), ('b', ('s',)), ('s', ('s',)), pw, _desc(_den(pw)), _desc(_den(pw), True), ('b', ('s', 1)), ('s', ('s',), ('s', 1)), ('s', ('s', 1), ('s',)), ('b', C), ('s', ('s', 1, 2)), ('s', ('s', 2, 1), ('s', 1, 2))]
+    mixed = ('x', ('b', A), A)                         # a set-typed component to the left of an element-typed one
+    mixed2 = ('x', A, ('b', A))
+    s_mixed = [mixed, _desc(_den(mixed)), _desc(_den(mixed), True), ('x', ('b', ('s', 1)), A), _desc(_den(('x', ('b', ('s', 1)), A)), True), ('s', ('t', ('s', 1), 2), ('t', ('s',), 1))]
+    s_mixed2 = [mixed2, _desc(_den(mixed2)), _desc(_den(mixed2), True), ('x', ('s', 1), ('b', A)), _desc(_den(('x', ('s', 1), ('b', A))))]
+    bp = ('b', ('x', ('s', 1, 2), ('s', 3)))
+    s_setpair = [bp, _desc(_den(bp)), _desc(_den(bp), True), ('b', ('x', ('s', 1), ('s', 3))), ('s', ('s', ('t', 1, 3)), ('s',))]
+    long_t = [('t', 1, 1, 1, 1, 1), ('t', 1, 1, 1, 1, 2), ('t', 1, 1, 1, 2, 1), ('t', 2, 1, 1, 1, 1), ('t', 1, 2, 1, 1, 1), ('t', 1, 1, 2, 1, 1), ('t', 1, 1, 2, 1, 1)]
+    fam = {'ℤ×ℤ×ℤ×ℤ×ℤ': long_t, 'ℤ': ints, 'ℤ×ℤ': pairs, 'ℬ(ℤ)': s_int, 'ℬ(ℤ×ℤ)': s_pair, 'ℬℬ(ℤ)': s_set, 'ℬ(ℬ(ℤ)×ℤ)': s_mixed, 'ℬ(ℤ×ℬ(ℤ))': s_mixed2, 'ℬℬ(ℤ×ℤ)': s_setpair}
+    if thorough:
+        t3 = ('x', A, B2, C)
+        fam['ℬ(ℤ×ℤ×ℤ)'] = [t3, _desc(_den(t3)), _desc(_den(t3), True), ('x', A, A, A), _desc(_den(('x', A, A, A)), True), ('x', ('s', 1), B2, C)]
+        p3 = ('b', ('s', 1, 2, 3))
+        fam['ℬℬ(ℤ)'] = s_set + [p3, _desc(_den(p3)), _desc(_den(p3), True)]
+        bb = ('b', ('b', A))
+        fam['ℬℬℬ(ℤ)'] = [bb, _desc(_den(bb)), _desc(_den(bb), True), ('b', ('b', ('s', 1))), ('s', ('b', A), _desc(_den(('b', A)), True)), ('s', ('b', A))]
+        xx = ('x', ('x', A, B2), A)
+        fam['ℬ((ℤ×ℤ)×ℤ)'] = [xx, _desc(_den(xx)), _desc(_den(xx), True), ('x', ('x', A, A), ('s', 1))]
+        big = ('x', ('s', 1, 2, 3), ('s', 1, 2, 3))
+        fam['ℬ(ℤ×ℤ)'] = s_pair + [big, _desc(_den(big)), _desc(_den(big), True)]
+    return fam
+
+
+def _eval_family(ev, tname, descs, thorough, fail, tick):
+    EQ, LT, GT = ev.CMP['EQUAL'], ev.CMP['LESS'], ev.CMP['GREATER']
+    hs = []
+    for d in descs:
+        h = ev.build(d)
+        want = _den(d)
+        got, dups = _value(ev.read(h))
+        tick('iteration')
+        if dups:
+            fail('iteration', 'iterating %s visits an element twice: %s' % (_show_d(d), dups[0]), 'SDPowerSet::Iterator::operator++' if d and not isinstance(d, int) and d[0] == 'b' else 'SDDecartian::Iterator::operator++' if not isinstance(d, int) and d[0] == 'x' else 'SDEnumSet::AddElement')
+        if got != want:
+            fail('iteration', 'reading %s (type %s) gives %s, the value is %s' % (_show_d(d), tname, _show_v(got), _show_v(want)),
+                 'SDPowerSet::Iterator::operator++' if not isinstance(d, int) and d[0] == 'b' else 'SDDecartian::Iterator::operator++' if not isinstance(d, int) and d[0] == 'x' else 'SDEnumSet::AddElement')
+        if isinstance(want, frozenset):
+            card = ev.call(ev.fn(O + 'SDSet::Cardinality'), [], ev.B(h))
+            tick('cardinality')
+            if card != len(want):
+                fail('cardinality', 'Cardinality() of %s is %s, the set has %d elements' % (_show_d(d), card, len(want)), 'SDSet::Cardinality')
+        hs.append((d, h, want))
+    # equality and order over all pairs
+    for (d1, h1, v1), (d2, h2, v2) in itertools.product(hs, repeat=2):
+        c12 = ev.compare(h1, h2)
+        c21 = ev.compare(h2, h1)
+        e12 = ev.eq(h1, h2)
+        tick('equality')
+        if (c12 == EQ) != (v1 == v2) or e12 != (v1 == v2):
+            fail('equality', '%s and %s denote %s value but Compare gives %s and operator== gives %s' % (_show_d(d1), _show_d(d2), 'the same' if v1 == v2 else 'different', _cmp_name(ev, c12), e12),
+                 'SDSet::Compare' if isinstance(v1, frozenset) else 'SDTuple::Compare' if isinstance(v1, tuple) else 'StructuredData::Compare')
+        l12 = ev.lt(h1, h2)
+        tick('order')
+        if l12 != (c12 == LT):
+            fail('order', 'operator< on (%s, %s) is %s but Compare gives %s' % (_show_d(d1), _show_d(d2), l12, _cmp_name(ev, c12)), 'StructuredData::Compare')
+        tick('order')
+        if not ((c12 == LT and c21 == GT) or (c12 == GT and c21 == LT) or (c12 == EQ and c21 == EQ)):
+            fail('order', 'Compare(%s, %s) = %s but Compare(%s, %s) = %s: not a strict order' % (_show_d(d1), _show_d(d2), _cmp_name(ev, c12), _show_d(d2), _show_d(d1), _cmp_name(ev, c21)),
+                 'SDSet::Compare' if isinstance(v1, frozenset) else 'SDTuple::Compare' if isinstance(v1, tuple) else 'StructuredData::Compare')
+    # transitivity on the distinct values
+    cmp_cache = {}
+
+    def less(i, j):
+        if (i, j) not in cmp_cache:
+            cmp_cache[(i, j)] = ev.compare(hs[i][1], hs[j][1]) == LT
+        return cmp_cache[(i, j)]
+    idx = range(len(hs))
+    for i, j, k3 in itertools.product(idx, repeat=3):
+        if less(i, j) and less(j, k3):
+            tick('order')
+            if not less(i, k3):
+                fail('order', '%s < %s and %s < %s but not %s < %s' % (_show_d(hs[i][0]), _show_d(hs[j][0]), _show_d(hs[j][0]), _show_d(hs[k3][0]), _show_d(hs[i][0]), _show_d(hs[k3][0])),
+                     'SDSet::Compare' if isinstance(hs[i][2], frozenset) else 'SDTuple::Compare')
+    if not hs or not isinstance(hs[0][2], frozenset):
+        return
+    # a set of these sets: equal values collapse whatever their representation
+    outer = ev.F('Set', [h for _, h, _ in hs])
+    got, dups = _value(ev.read(outer))
+    tick('nesting')
+    if dups or got != frozenset(v for _, _, v in hs):
+        fail('nesting', 'the enumerated set of the %d values of type %s has %d elements when read, %d distinct values were inserted' % (len(hs), tname, len(ev.read(outer)[1]), len({v for _, _, v in hs})), 'SDEnumSet::AddElement')
+    # membership
+    universe = {}
+    for _, _, v in hs:
+        for e in v:
+            universe.setdefault(e, None)
+    elems = [(e, ev.build(_desc(e)), ev.build(_desc(e, True))) for e in sorted(universe, key=_key)]
+    for d, h, v in hs:
+        for e, he, he2 in elems:
+            for hx in (he, he2):
+                tick('Contains')
+                c = bool(ev.call(ev.fn(O + 'SDSet::Contains'), [hx], ev.B(h)))
+                if c != (e in v):
+                    fail('Contains', '%s.Contains(%s) = %s' % (_show_d(d), _show_v(e), c), 'SDSet::Contains')
+    # binary operations (the quick tier pairs every value with the first eight of its family)
+    for (d1, h1, v1), (d2, h2, v2) in itertools.product(hs, hs if thorough else hs[:8]):
+        for op, fnc in (('Union', lambda a, b: a | b), ('Intersect', lambda a, b: a & b), ('Diff', lambda a, b: a - b), ('SymDiff', lambda a, b: a ^ b)):
+            res = ev.setop(op, h1, ev.B(h2))
+            got, dups = _value(ev.read(res))
+            tick(op)
+            if dups or got != fnc(v1, v2):
+                fail(op, '%s.%s(%s) reads as %s, the definition gives %s' % (_show_d(d1), op, _show_d(d2), _show_v(got), _show_v(fnc(v1, v2))), 'SDSet::' + op)
+            elif ev.compare(res, ev.build(_desc(fnc(v1, v2), True))) != EQ:
+                fail(op, '%s.%s(%s) has the right elements but does not compare equal to the enumerated set of them' % (_show_d(d1), op, _show_d(d2)), 'SDSet::' + op)
+        sub = bool(ev.setop('IsSubsetOrEq', h1, ev.B(h2)))
+        tick('IsSubsetOrEq')
+        if sub != (v1 <= v2):
+            fail('IsSubsetOrEq', '%s.IsSubsetOrEq(%s) = %s' % (_show_d(d1), _show_d(d2), sub), 'SDSet::IsSubsetOrEq')
+    # a private copy keeps the value; adding to a copy does not touch the original
+    for d, h, v in hs:
+        h2 = ev.copy_handle(h)
+        fresh = ev.build(_desc(sorted(universe, key=_key)[0])) if universe else None
+        if fresh is None:
+            continue
+        ev.modify_add(h2, fresh)
+        got1, _ = _value(ev.read(h))
+        got2, _ = _value(ev.read(h2))
+        tick('copies')
+        if got1 != v:
+            fail('copies', 'adding an element to a copy of %s changed the original to %s' % (_show_d(d), _show_v(got1)), 'SDEnumSet::AddElement')
+        lazy = not isinstance(d, int) and d[0] in ('x', 'b') and len(v) > 0
+        want2 = v if lazy else v | {sorted(universe, key=_key)[0]}
+        if got2 != want2:
+            fail('copies', 'a modified copy of %s reads as %s (expected %s)' % (_show_d(d), _show_v(got2), _show_v(want2)), 'SDEnumSet::AddElement')
+    # unary operations by element type
+    for d, h, v in hs:
+        if v and all(isinstance(e, frozenset) for e in v):
+            res = ev.setop('Reduce', h)
+            got, dups = _value(ev.read(res))
+            tick('Reduce')
+            want = frozenset(x for e in v for x in e)
+            if dups or got != want:
+                fail('Reduce', 'Reduce(%s) reads as %s, the union of its elements is %s' % (_show_d(d), _show_v(got), _show_v(want)), 'SDSet::Reduce')
+        if v and all(isinstance(e, tuple) for e in v):
+            ar = len(next(iter(v)))
+            for ixs in [[1], [2], [2, 1], [1, 1]] + ([[1, 3]] if ar >= 3 else []):
+                if max(ixs) > ar:
+                    continue
+                res = ev.setop('Projection', h, list(ixs))
+                got, dups = _value(ev.read(res))
+                tick('Projection')
+                want = frozenset((e[ixs[0] - 1] if len(ixs) == 1 else tuple(e[i - 1] for i in ixs)) for e in v)
+                if dups or got != want:
+                    fail('Projection', 'Projection(%s, %s) reads as %s, expected %s' % (_show_d(d), ixs, _show_v(got), _show_v(want)), 'SDSet::Projection')
+        if len(v) == 1:
+            res = ev.setop('Debool', h)
+            got, _ = _value(ev.read(res))
+            tick('Debool')
+            if got != next(iter(v)):
+                fail('Debool', 'Debool(%s) reads as %s' % (_show_d(d), _show_v(got)), 'SDSet::Debool')
+
+
+def _eval_sizes(ev, db, thorough, fail, tick):
+    # sizes of lazy sets far beyond what can be enumerated: only Cardinality / IsEmpty / begin()==end() are evaluated
+    INF = db.fn(O + 'StructuredData::SET_INFINITY::<init>', required=False)
+    inf = ev.it.eval(INF, INF.stmts[INF.body], {}) if INF is not None else None
+    if not isinstance(inf, int):
+        raise OutOfFragment('SET_INFINITY not evaluable')
+    base_cache = {}
+
+    def pw(n_):
+        if n_ not in base_cache:
+            base_cache[n_] = ev.F('Boolean', ev.build(('s',) + tuple(range(1, n_ + 1))))
+        return base_cache[n_]
+    shapes = [(3,), (10,), (27,), (28,), (30,), (31,), (10, 10), (13, 14), (14, 14), (15, 16), (16, 16), (11, 11, 11), (20, 14, -3), (16, -33), (27, -2), (28, -2), (-3, 27), (1, 1, 1), (0, 5)]
+    if thorough:
+        shapes += [(a, b) for a in range(8, 31, 2) for b in range(8, 31, 3)] + [(a, b, c) for a in (4, 8, 12, 16) for b in (8, 10, 12) for c in (8, 12, 16, -7)]
+    for sh in shapes:
+        exact = 1
+        fs = []
+        for e_ in sh:
+            if e_ >= 0:
+                exact *= 2 ** e_
+                fs.append(pw(e_))
+            else:
+                exact *= -e_
+                fs.append(ev.build(('s',) + tuple(range(1, -e_ + 1))))
+        h = fs[0] if len(fs) == 1 else ev.F('Decartian', fs)
+        card = ev.call(ev.fn(O + 'SDSet::Cardinality'), [], ev.B(h))
+        empty = bool(ev.call(ev.fn(O + 'SDSet::IsEmpty'), [], ev.B(h)))
+        b_ = ev.call(ev.fn(O + 'SDSet::begin'), [], ev.B(h))
+        e2 = ev.call(ev.fn(O + 'SDSet::end'), [], ev.B(h))
+        tick('cardinality')
+        name = ' × '.join(('ℬ(%d elements)' % e_) if e_ >= 0 else ('{1..%d}' % -e_) for e_ in sh)
+        if exact < inf and card != exact:
+            fail('cardinality', 'Cardinality() of %s is %s, the set has %d elements' % (name, card, exact), 'SDSet::Cardinality')
+        elif exact >= inf and not (isinstance(card, int) and inf <= card < 2 ** 31):
+            fail('cardinality', 'Cardinality() of %s is %s: the set has %d elements, at least SET_INFINITY = %d must be reported' % (name, card, exact, inf), 'SDSet::Cardinality')
+        elif empty or ev.iter_eq(b_, e2):
+            fail('cardinality', '%s, a set of %d elements, reports IsEmpty() = %s and begin() == end() is %s' % (name, exact, empty, ev.iter_eq(b_, e2)), 'SDSet::Cardinality')
+
+
+def _job(job):
+    """one family (or the size arithmetic) evaluated in a worker process: (bad, counts, steps, broken)"""
+    from engine.models.sdmodel import SDEval, Crash
+    db, (kind, tname, descs, thorough) = _JOBDB[0], job
+    bad, counts = {}, {}
+    where = {}
+    for nm in ('StructuredData::Compare', 'SDSet::Compare', 'SDTuple::Compare', 'SDSet::Union', 'SDSet::Intersect', 'SDSet::Diff', 'SDSet::SymDiff', 'SDSet::IsSubsetOrEq', 'SDSet::Contains',
+               'SDSet::Cardinality', 'SDSet::Projection', 'SDSet::Reduce', 'SDSet::Debool', 'SDDecartian::Iterator::operator++', 'SDPowerSet::Iterator::operator++', 'SDEnumSet::AddElement'):
+        f = db.fn(O + nm, required=False)
+        where[nm] = '%s:%d' % (f.file, f.line) if f is not None else ''
+
+    def fail(inst, msg, anchor):
+        bad.setdefault(inst, (where.get(anchor, ''), msg))
+
+    def tick(inst):
+        counts[inst] = counts.get(inst, 0) + 1
+    broken = None
+    steps = 0
+    try:
+        ev = SDEval(db, max_steps=80000000 if thorough else 30000000)
+        try:
+            if kind == 'family':
+                _eval_family(ev, tname, descs, thorough, fail, tick)
+            else:
+                _eval_sizes(ev, db, thorough, fail, tick)
+        finally:
+            steps = ev.it.steps
+    except Crash as e:
+        fail('no-undefined-behaviour', 'a sequence of public calls on well-typed values of type %s reaches undefined behaviour: %s' % (tname, e), 'StructuredData::Compare')
+    except OutOfFragment as e:
+        if not bad:
+            broken = 'StructuredData outside the evaluable fragment (%s): %s' % (tname, e)
+    return bad, counts, steps, broken
+
+
+_JOBDB = [None]
+
+
+def _denotation(db, rep):
+    """r6: every public operation of StructuredData, interpreted from the library's own source on families of values that mix enumerated,
+    power-set and product representations (and insertion orders with duplicates), against the mathematical definition."""
+    import multiprocessing
+    thorough = rep.tier == 'thorough'
+    r6 = rep.rule('r6', 'ALGEBRA-EVALUATED: equality, order, iteration, membership, cardinality and every set operation of the interpreted library agree with the mathematical value on mixed-representation families', 8)
+    fam = _families(thorough)
+    jobs = [('family', t, d, thorough) for t, d in fam.items()] + [('sizes', 'sizes', None, thorough)]
+    _JOBDB[0] = db
+    try:
+        with multiprocessing.get_context('fork').Pool(min(16, len(jobs))) as pool:
+            results = pool.map(_job, jobs, 1)
+    finally:
+        _JOBDB[0] = None
+    bad, counts, steps = {}, {}, 0
+    for (b_, c_, s_, br) in results:
+        if br:
+            r6.broken(br)
+        for k_, v_ in b_.items():
+            bad.setdefault(k_, v_)
+        for k_, v_ in c_.items():
+            counts[k_] = counts.get(k_, 0) + v_
+        steps += s_
+    if r6.broken_reason:
+        return
+    rep.note('r6_evaluations', dict(counts))
+    rep.note('r6_interpreter_steps', steps)
+    rep.note('r6_families', {t: len(d) for t, d in fam.items()})
+    for inst in ('iteration', 'cardinality', 'equality', 'order', 'nesting', 'Contains', 'Union', 'Intersect', 'Diff', 'SymDiff', 'IsSubsetOrEq', 'copies', 'Reduce', 'Projection', 'Debool'):
+        if inst in bad:
+            r6.violation(inst, bad[inst][0], bad[inst][1])
+        elif counts.get(inst):
+            r6.ok(inst, '%d evaluated cases over %d type families agree with the definition' % (counts[inst], len(fam)))
+    if 'no-undefined-behaviour' in bad:
+        r6.violation('no-undefined-behaviour', bad['no-undefined-behaviour'][0], bad['no-undefined-behaviour'][1])
+
+
+def _cmp_name(ev, c):
+    for k, v in ev.CMP.items():
+        if v == c:
+            return k
+    return str(c)
+
+
+def _show_v(v):
+    if isinstance(v, frozenset):
+        return '{' + ', '.join(_show_v(x) for x in sorted(v, key=_key)) + '}'
+    if isinstance(v, tuple):
+        return '(' + ', '.join(_show_v(x) for x in v) + ')'
+    return str(v)
